@@ -1,6 +1,6 @@
 (* C17 property theorems.  Only `exact` of lemmas proved in the *_Proofs files. *)
 From Coq Require Import ZArith List.
-From PV Require Import C17.C17_Model C17.C17_RM_Proofs.
+From PV Require Import C17.C17_Model C17.C17_Lists C17.C17_RM_Proofs C17.C17_Proofs.
 Import ListNotations.
 Local Open Scope Z_scope.
 
@@ -13,9 +13,9 @@ Theorem rm_set_semantics : forall ops : list rm_op,
 Proof. exact rm_set_semantics_proof. Qed.
 Print Assumptions rm_set_semantics.
 
-(* queryRefillRange on a well-formed module: {0,0} exactly when every byte of [l,r) is covered;
-   otherwise a range inside [l,r) whose first and last bytes are uncovered and that contains
-   every uncovered byte of [l,r). *)
+(* queryRefillRange on a well-formed module (Example wf_example): {0,0} exactly when every byte
+   of [l,r) is covered; otherwise a range inside [l,r) whose first and last bytes are uncovered
+   and that contains every uncovered byte of [l,r). *)
 Theorem rm_query_spec : forall m l r, WF m ->
   let q := queryRefillRange m l r in
   (q = (0, 0) /\ (forall x, l <= x < r -> covers m x))
@@ -24,3 +24,53 @@ Theorem rm_query_spec : forall m l r, WF m ->
       /\ (forall x, l <= x < r -> ~ covers m x -> fst q <= x < snd q)).
 Proof. exact queryRefillRange_spec. Qed.
 Print Assumptions rm_query_spec.
+
+(* The sequential read path (ICacheStore::preadv2 -> try_preadv2 -> do_refill_range over
+   FileCacheStore's in-memory filled-range path).  Under CacheConsistent (`Good`: every cached byte
+   is inside the media file, below the known size and equals the source byte; the known size is
+   <= the source size and, if not page aligned, equal to it; no foreign range lock; pending
+   refill buffers hold source bytes — Example ex_good), for every source content, page size,
+   refill unit >= 1 (power of two or not), pool configuration (no pool / inline / async
+   write-back / direct-read threshold), offset >= 0, buffer length, CACHE_ONLY and SYNC flags and
+   EVERY script of source-read outcomes (ok / short / fail) and media-write outcomes:
+   ReadPost = the store is again Good; the returned count r is -1 or 0 <= r <= min(count, size -
+   offset) and bytes [0,r) of the buffer equal source[offset, offset+r); buffer bytes at or
+   beyond min(count, size-offset) are untouched (never more than the source has); and if no
+   source call fails or is short and the read is not CACHE_ONLY then r = min(count, size-offset)
+   exactly.  The iovec segmentation does not occur in the model (flat buffer; tie by the
+   harness over every segmentation). *)
+Theorem read_returns_source :
+  forall (src : list Z) (cfg : config), 1 <= c_page cfg -> 1 <= c_unit cfg ->
+  forall (co sync : bool) (w : world) (offset vsize : Z),
+    Good src cfg w -> zlen (w_ubuf w) = vsize -> 0 <= offset ->
+    match preadv2 src cfg co sync w offset vsize with
+    | (r, w') => ReadPost src cfg w offset vsize co r w'
+    end.
+Proof. exact read_returns_source_proof. Qed.
+Print Assumptions read_returns_source.
+
+(* whatever the source does (fail, short read, at any call) and whatever the media write does:
+   the read fails (-1) or every byte it reports is the source's byte, and the store — also after
+   the asynchronous write-back ran — holds only source bytes. *)
+Theorem failed_source_read_no_wrong_bytes :
+  forall (src : list Z) (cfg : config), 1 <= c_page cfg -> 1 <= c_unit cfg ->
+  forall (co sync : bool) (w : world) (offset vsize : Z),
+    Good src cfg w -> zlen (w_ubuf w) = vsize -> 0 <= offset ->
+    let r := fst (preadv2 src cfg co sync w offset vsize) in
+    let w' := snd (preadv2 src cfg co sync w offset vsize) in
+    (r = -1 \/ (0 <= r <= Z.max 0 (Z.min vsize (zlen src - offset))
+               /\ forall i, 0 <= i < r -> getz (w_ubuf w') i = getz src (offset + i)))
+    /\ Inv src cfg (w_st w') /\ Inv src cfg (w_st (drain w')).
+Proof. exact failed_source_read_no_wrong_bytes_proof. Qed.
+Print Assumptions failed_source_read_no_wrong_bytes.
+
+(* every sequence of operations (reads with arbitrary fault scripts and their write-back, range
+   eviction, truncate, whole-file eviction) preserves CacheConsistent, and every read in the
+   sequence satisfies read_ok (Example ex_idle). *)
+Theorem consistent_preserved :
+  forall (src : list Z) (cfg : config), 1 <= c_page cfg -> 1 <= c_unit cfg -> zlen src <= OFF_MAX ->
+  forall (ops : list op) (w : world),
+    Idle src cfg w -> Forall op_ok ops ->
+    Idle src cfg (snd (run_ops src cfg w ops)) /\ results_ok src cfg w ops.
+Proof. exact consistent_preserved_proof. Qed.
+Print Assumptions consistent_preserved.
